@@ -229,25 +229,18 @@ theorem no_device_key_only_errors (v : List Nat) (reuse : Bool) (m : Nat) (d : N
       have hnot := key k s s' resp eff hs hg hh
       have hto2 : s.proto = .to2 := (hinv k s hs).hproto (by rw [hg]; simp)
       have htyp : r.typ = 62 := by
-        rw [hpr.symm, hto2] at hp
-        unfold protoOf at hp
+        have hreq := handle_request_type hh
+        have hp2 : protoOf r.typ = some Proto.to2 := by rw [hp, ← hto2, hpr]
         simp only [isStart, Bool.or_eq_false_iff, beq_eq_false_iff_ne] at hst
-        split at hp
-        · cases hp
-        · split at hp
-          · cases hp
-          · split at hp
-            · cases hp
-            · split at hp
-              · rename_i hc
-                rcases hc with h | h | h | h | h | h
-                · exact absurd h hst.2
-                · exact h
-                · exfalso; exact hnot (Or.inl (by omega))
-                · exfalso; exact hnot (Or.inr (Or.inl (by omega)))
-                · exfalso; exact hnot (Or.inr (Or.inr (Or.inl (by omega))))
-                · exfalso; exact hnot (Or.inr (Or.inr (Or.inr (by omega))))
-              · cases hp
+        rcases hreq with h | h | h | h | h | h | h | h | h | h | h | h
+        all_goals (first
+          | (rw [h] at hp2; simp [protoOf] at hp2; done)
+          | (exact absurd h hst.2)
+          | exact h
+          | (exfalso; exact hnot (Or.inl (by omega)))
+          | (exfalso; exact hnot (Or.inr (Or.inl (by omega))))
+          | (exfalso; exact hnot (Or.inr (Or.inr (Or.inl (by omega)))))
+          | (exfalso; exact hnot (Or.inr (Or.inr (Or.inr (by omega))))))
       refine ⟨Or.inl (by simp only; omega), ?_⟩
       apply List.eq_nil_iff_forall_not_mem.mpr
       intro e he
